@@ -18,6 +18,9 @@ import ast
 from .paths import return_paths
 
 UNKNOWN = object()
+_STR_METHODS = ('lower', 'upper', 'casefold', 'strip', 'lstrip', 'rstrip',
+                'title', 'capitalize', 'swapcase', 'format', 'join',
+                'replace')
 
 
 def const_args(call, target):
@@ -67,6 +70,16 @@ def evaluate(expr, lookup, depth=0):
         if all(v is not UNKNOWN for v in vals):
             return vals[-1]
         return UNKNOWN
+    if isinstance(expr, ast.IfExp):
+        t = evaluate(expr.test, lookup, depth + 1)
+        if t is UNKNOWN:
+            a = evaluate(expr.body, lookup, depth + 1)
+            b = evaluate(expr.orelse, lookup, depth + 1)
+            if a is not UNKNOWN and b is not UNKNOWN and \
+                    type(a) is type(b) and a == b:
+                return a
+            return UNKNOWN
+        return evaluate(expr.body if t else expr.orelse, lookup, depth + 1)
     if isinstance(expr, (ast.Tuple, ast.List)):
         vals = [evaluate(v, lookup, depth + 1) for v in expr.elts]
         if any(v is UNKNOWN for v in vals):
@@ -75,9 +88,19 @@ def evaluate(expr, lookup, depth=0):
     if isinstance(expr, ast.Compare) and len(expr.ops) == 1:
         a = evaluate(expr.left, lookup, depth + 1)
         b = evaluate(expr.comparators[0], lookup, depth + 1)
+        op = expr.ops[0]
+        if (a is None) != (b is None) and (a is UNKNOWN or b is UNKNOWN):
+            # a string-method result (x.lower(), ...) is never None
+            other = expr.comparators[0] if a is None else expr.left
+            if isinstance(other, ast.Call) and \
+                    isinstance(other.func, ast.Attribute) and \
+                    other.func.attr in _STR_METHODS:
+                if isinstance(op, (ast.Eq, ast.Is)):
+                    return False
+                if isinstance(op, (ast.NotEq, ast.IsNot)):
+                    return True
         if a is UNKNOWN or b is UNKNOWN:
             return UNKNOWN
-        op = expr.ops[0]
         try:
             if isinstance(op, ast.Is):
                 return a is b if (a is None or b is None or
